@@ -183,6 +183,8 @@ type rendered struct {
 	sigalgs  *named
 	ksGroups *named
 	points   *named
+	pskModes *named
+	certAlgs *named
 	extNames named
 }
 
@@ -313,6 +315,7 @@ func renderJSON(w *whello, variant int) (*rendered, error) {
 			if err != nil {
 				return nil, err
 			}
+			r.certAlgs = &n
 			o["algorithms"] = n.names
 		case 28:
 			if len(e.data) != 2 {
@@ -345,6 +348,7 @@ func renderJSON(w *whello, variant int) (*rendered, error) {
 			if err != nil {
 				return nil, err
 			}
+			r.pskModes = &n
 			o["ke_modes"] = n.names
 		case 51:
 			ks, err := parseKeyShares(e.data)
@@ -509,6 +513,21 @@ func makeDescribable(c *vh.Ctx, w *whello) {
 	w.exts = exts
 }
 
+// namesSeen[table][name]: dictionary names that were part of a hello taken through both importers
+var namesSeen = map[string]map[string]bool{}
+
+func noteNames(table string, n *named) {
+	if n == nil {
+		return
+	}
+	if namesSeen[table] == nil {
+		namesSeen[table] = map[string]bool{}
+	}
+	for _, x := range n.names {
+		namesSeen[table][x] = true
+	}
+}
+
 // ---------- building hellos ----------
 
 type detRand struct{ src *mrand.Rand }
@@ -574,6 +593,13 @@ func compareImports(c *vh.Ctx, label string, raw []byte, toCoq bool, variant int
 		return
 	}
 	c.Count("hellos-through-both-importers")
+	noteNames("CipherSuite", &rj.suites)
+	noteNames("CompMeth", &rj.comp)
+	noteNames("SupportedGroups", rj.groups)
+	noteNames("SignatureScheme", rj.sigalgs)
+	noteNames("ECPointFormat", rj.points)
+	noteNames("PSKKeyExchangeMode", rj.pskModes)
+	noteNames("CertificateCompressionAlgorithm", rj.certAlgs)
 	for _, e := range w0.exts {
 		if !isGrease(e.id) {
 			c.Count(fmt.Sprintf("ext-type-through-both-importers/%05d", e.id))
@@ -646,9 +672,15 @@ func compareImports(c *vh.Ctx, label string, raw []byte, toCoq bool, variant int
 	if rj.points != nil && imported.points != nil {
 		namedCase(c, "import-point-formats", "CImport", "ECPointFormat", *rj.points, imported.points, true, label)
 	}
+	if rj.pskModes != nil && imported.pskModes != nil {
+		namedCase(c, "import-psk-modes", "CImport", "PSKKeyExchangeMode", *rj.pskModes, imported.pskModes, true, label)
+	}
+	if rj.certAlgs != nil && imported.certAlgs != nil {
+		namedCase(c, "import-cert-compression", "CImport", "CertificateCompressionAlgorithm", *rj.certAlgs, imported.certAlgs, true, label)
+	}
 }
 
-type importedLists struct{ suites, comp, groups, sigalgs, ksGroups, points []uint64 }
+type importedLists struct{ suites, comp, groups, sigalgs, ksGroups, points, pskModes, certAlgs []uint64 }
 
 func captureImported(spec *tls.ClientHelloSpec) importedLists {
 	var im importedLists
@@ -679,6 +711,16 @@ func captureImported(spec *tls.ClientHelloSpec) importedLists {
 			im.points = []uint64{}
 			for _, v := range t.SupportedPoints {
 				im.points = append(im.points, uint64(v))
+			}
+		case *tls.PSKKeyExchangeModesExtension:
+			im.pskModes = []uint64{}
+			for _, v := range t.Modes {
+				im.pskModes = append(im.pskModes, uint64(v))
+			}
+		case *tls.UtlsCompressCertExtension:
+			im.certAlgs = []uint64{}
+			for _, v := range t.Algorithms {
+				im.certAlgs = append(im.certAlgs, uint64(v))
 			}
 		}
 	}
